@@ -702,7 +702,8 @@ def using_fields(fmt):
                 if fmt[j] == '#':
                     sharps += 1
                 elif fmt[j] == ',':
-                    pass
+                    if dot:
+                        break       # a comma after the decimal point ends the field
                 elif fmt[j] == '.' and not dot:
                     dot = True
                 elif fmt[j] in '+-' and not lead:
